@@ -15,7 +15,72 @@ def mk_ranking(r):
     return Ranking([set(b) for b in r])
 
 
+VIA = None          # set by `via(...)`: the history through which mk_dataset reaches the dataset it is asked for
+VIA_USED = [0, 0]   # [datasets reached through the history, datasets built directly because the history does not apply]
+VIA_KINDS = ["rm_last", "rm_first0", "rm_tied", "rm_alpha", "rm_empty", "rm_rate"]
+
+
+@contextlib.contextmanager
+def via(kind):
+    global VIA
+    old, VIA = VIA, kind
+    try:
+        yield
+    finally:
+        VIA = old
+
+
+def _content(ds):
+    return [tuple(frozenset((type(val(e)).__name__, val(e)) for e in b) for b in r) for r in ds.rankings]
+
+
+def _via_dataset(rankings, kind):
+    """the Dataset holding exactly `rankings`, reached through a public in-place mutator: it is built with one extra
+    element (or one extra empty ranking) that the mutator then removes. None when the history does not apply or does
+    not lead to the wanted content (what mutators do is C16's subject, not the caller's)."""
+    if any(len(r) == 0 for r in rankings) or not rankings:
+        return None                             # the element mutators drop empty rankings
+    intlike = all_intlike(rankings)
+    names = set(x for r in rankings for b in r for x in b)
+    if kind == "rm_empty":
+        ds = Dataset([mk_ranking(r) for r in [[]] + [list(r) for r in rankings]])
+        ds.remove_empty_rankings()
+    else:
+        x = "zq" if (kind == "rm_alpha" or not intlike) else (987 if all(isinstance(n, int) for n in names) else "987")
+        if x in names:
+            return None
+        if kind == "rm_first0":
+            aug = [[[x]] + [list(b) for b in rankings[0]]] + [[list(b) for b in r] for r in rankings[1:]]
+        elif kind == "rm_tied":
+            aug = [[list(r[0]) + [x]] + [list(b) for b in r[1:]] for r in rankings]
+        elif kind == "rm_rate":
+            m = len(rankings)
+            pres = min(sum(1 for r in rankings if any(n in b for b in r)) for n in names)
+            if m < 2 or pres < 2:
+                return None
+            aug = [[list(b) for b in rankings[0]] + [[x]]] + [[list(b) for b in r] for r in rankings[1:]]
+        else:
+            aug = [[list(b) for b in r] + [[x]] for r in rankings]
+        ds = Dataset([mk_ranking(r) for r in aug])
+        if kind == "rm_rate":
+            ds.remove_elements_rate_presence_lower_than(2. / len(rankings))
+        else:
+            ds.remove_elements({e for e in ds.universe if val(e) == x})
+    want, conv = expected_names(rankings)
+    want_c = [tuple(frozenset((type(v).__name__, v) for v in b) for b in r) for r in want]
+    return ds if _content(ds) == want_c else None
+
+
 def mk_dataset(rankings):
+    if VIA is not None:
+        try:
+            ds = _via_dataset(rankings, VIA)
+        except Exception:       # a failing mutator is C16's subject
+            ds = None
+        if ds is not None:
+            VIA_USED[0] += 1
+            return ds
+        VIA_USED[1] += 1
     return Dataset([mk_ranking(r) for r in rankings])
 
 
